@@ -257,7 +257,6 @@ impl FileUploadSession {
         self.process_aggregated_data_as_xorb(data_agg).await?;
 
         // Now, make sure all the remaining xorbs are uploaded.
-        let mut metrics = take(&mut *self.deduplication_metrics.lock().await);
 
         // Finalize the xorb uploads.
         let mut upload_tasks = take(&mut *self.xorb_upload_tasks.lock().await);
@@ -265,6 +264,10 @@ impl FileUploadSession {
         while let Some(result) = upload_tasks.join_next().await {
             result??;
         }
+
+        // The upload tasks add the bytes they transmitted to the session metrics as they complete, so only
+        // take the metrics once all of them are done.
+        let mut metrics = take(&mut *self.deduplication_metrics.lock().await);
 
         // Now that all the tasks there are completed, there shouldn't be any other references to this session
         // hanging around; i.e. the self in this shession should be used as if it's consuming the class, as it
